@@ -112,6 +112,47 @@ theorem zeroTail_eq : ∀ (n off : Nat) (dst : List Nat),
     simp only [List.length_cons, List.length_nil, Nat.zero_add] at this
     rw [this, show ([0] : List Nat) = List.replicate 1 0 from rfl, List.replicate_append_replicate, Nat.add_comm 1 n]
 
+theorem splice_zero_take (dst src : List Nat) (size : Nat) (hs : size ≤ src.length) (_hd : size ≤ dst.length) :
+    splice dst 0 (src.take size) = copySpec size dst src := by
+  have : (src.take size).length = size := by simp; omega
+  simp [splice, copySpec, this]
+
+theorem copy_core (b m size : Nat) (dst src : List Nat) (hs : size ≤ src.length) (hd : size ≤ dst.length)
+    (hmb : m * b ≤ size) :
+    (match copySimd b m 0 dst src with
+      | none => none
+      | some d1 => copyTail (size - m * b) (m * b) d1 src) = some (copySpec size dst src) := by
+  rw [copySimd_eq b src m 0 dst (by omega) (by omega)]
+  simp only [List.drop_zero]
+  have hl : (src.take (m * b)).length = m * b := by simp; omega
+  rw [copyTail_eq src _ _ _ (by omega) (by rw [splice_length _ _ _ (by omega)]; omega)]
+  have h1 := splice_splice dst 0 (src.take (m * b)) ((src.drop (m * b)).take (size - m * b)) (by
+    rw [hl]; simp; omega)
+  rw [hl, Nat.zero_add] at h1
+  have h2 := take_drop_add src 0 (m * b) (size - m * b)
+  rw [Nat.zero_add, List.drop_zero, Nat.add_sub_cancel' hmb] at h2
+  rw [h1, h2, splice_zero_take dst src size hs hd]
+
+theorem zero_core (b m size : Nat) (dst : List Nat) (hd : size ≤ dst.length) (hmb : m * b ≤ size) :
+    (match zeroSimd b m 0 dst with
+      | none => none
+      | some d1 => zeroTail (size - m * b) (m * b) d1) = some (zeroSpec size dst) := by
+  rw [zeroSimd_eq b m 0 dst (by omega)]
+  simp only
+  rw [zeroTail_eq _ _ _ (by rw [splice_length _ _ _ (by simp; omega)]; omega)]
+  have h1 := splice_splice dst 0 (List.replicate (m * b) 0) (List.replicate (size - m * b) 0) (by simp; omega)
+  simp only [List.length_replicate, Nat.zero_add] at h1
+  rw [h1, List.replicate_append_replicate, Nat.add_sub_cancel' hmb]
+  simp [splice, zeroSpec]
+
+theorem simd_guard (b m : Nat) (dst src : List Nat) :
+    (if (m != 0) = true then copySimd b m 0 dst src else some dst) = copySimd b m 0 dst src := by
+  cases m <;> simp [copySimd]
+
+theorem zero_guard (b m : Nat) (dst : List Nat) :
+    (if (m != 0) = true then zeroSimd b m 0 dst else some dst) = zeroSimd b m 0 dst := by
+  cases m <;> simp [zeroSimd]
+
 theorem blocks_le (size shift : Nat) : (size >>> shift) <<< shift ≤ size := by
   rw [Nat.shiftRight_eq_div_pow, Nat.shiftLeft_eq]
   exact Nat.div_mul_le_self size (2 ^ shift)
